@@ -931,16 +931,26 @@ def call_model(M,st,fr,callee,args):
         it=args[0]
         if it.kind=='vec': it=PyObj('iter',src='list',items=list(it.items),pos=0)
         return PyObj('iter',src='list',items=[Agg('',[Int(k,64),x]) for k,x in enumerate(it.items[it.pos:])],pos=0)
-    if re.match(r'^<Enumerate<.*> as IntoIterator>::into_iter$',c) or c=='<std::ops::Range<usize> as IntoIterator>::into_iter': return args[0]
+    if re.match(r'^<Enumerate<.*> as IntoIterator>::into_iter$',c) or re.match(r'^<std::ops::Range<\w+> as IntoIterator>::into_iter$',c): return args[0]
     if re.match(r'^<Enumerate<.*> as Iterator>::next$',c):
         it=deref(args[0])
         if it.pos<len(it.items): it.pos+=1; return some(it.items[it.pos-1])
         return NONE()
-    if c=='<std::ops::Range<usize> as Iterator>::next':
+    m=re.match(r'^<std::ops::Range<(usize|u8|u16|u32|u64)> as Iterator>::next$',c)
+    if m:
         r=deref(args[0]); a,b=r.f[0],r.f[1]
-        if not(a.conc() and b.conc()): raise Unsupported('symbolic usize range')
-        if a.v<b.v: r.f[0]=Int(a.v+1,64); return some(a)
-        return NONE()
+        if a.conc() and b.conc():
+            if a.v<b.v: r.f[0]=Int(a.v+1,a.bits); return some(a)
+            return NONE()
+        lt=z3.ULT(a.z(),b.z())
+        class _RN(Native):
+            def __init__(s): s.state=0
+            def step(s,M,st):
+                if s.state==0: s.state=1; return ('branch',lt)
+                if s.taken:
+                    r.f[0]=Int(z3.simplify(a.z()+1),a.bits); return ('ret',some(a))
+                return ('ret',NONE())
+        return _RN()
     m=re.match(r'^<Vec<.*> as (Index|IndexMut)<usize>>::(index|index_mut)$',c)
     if m:
         r=args[0]
